@@ -32,10 +32,12 @@ CONSTANTS
   TCToSignedBug,    \* truncation_check unsigned -> signed converts the *source* with to_signed
   MutTCLessEq,      \* mutant: truncation_check compares max < source as max <= source
   MutCeilDivAdd,    \* mutant: ceil_div computed as (a + b - 1) / b
-  MutClampLess      \* mutant: clamp tests vmin < vmax
+  MutClampLess,     \* mutant: clamp tests vmin < vmax
+  IntervalTouchBug, \* interval_distance as found: containment with a shared end point is treated as partial overlap
+  MutConvZeroExtend \* mutant: a conversion zero-extends a negative source value
 
-VARIABLES f, S, D, a, b, c
-vars == <<f, S, D, a, b, c>>
+VARIABLES f, S, D, a, b, c, d4
+vars == <<f, S, D, a, b, c, d4>>
 
 Ok(v) == [ub |-> FALSE, r |-> v]
 UB == [ub |-> TRUE, r |-> 0]
@@ -155,6 +157,39 @@ Pow2Impl(R, e) ==             \* static_cast<Result>(literal<Result>(1) << e)
   IF e >= Bits(P) THEN UB ELSE Ok(Wrap(R, IF Small(P) THEN Wrap(P, P2[e]) ELSE P2[e]))
 BitTestImpl(T, v, m) == BitAnd(v, m) # 0    \* unsigned T
 
+\* ----------------------------------------------------------------- conversions (cast::size, to_signed, to_unsigned,
+\*                                                                    promote_int, safe_numeric, enum casts, literal)
+ConvImpl(Src, Dst, v) ==       \* static_cast<Dest>(_source)
+  IF MutConvZeroExtend /\ v < 0 THEN Wrap(Dst, Wrap(UnsignedOf(Src), v)) ELSE Wrap(Dst, v)
+
+\* ----------------------------------------------------------------- bit::test on signed types
+(* (_value & _mask.get()) != 0 on the promoted (sign-extended) operands: two negative operands share
+   the sign bit; otherwise the low Bits(T) bits of the negative operand decide *)
+BitTestSignedImpl(T, v, m) ==
+  IF v < 0 /\ m < 0 THEN TRUE
+  ELSE BitAnd(Wrap(UnsignedOf(T), v), Wrap(UnsignedOf(T), m)) # 0
+(* the definition on bit patterns: some bit of the Bits(T)-bit two's complement patterns is set in both *)
+BitTestPattern(T, v, m) == BitTest(Wrap(UnsignedOf(T), v), Wrap(UnsignedOf(T), m))
+
+\* ----------------------------------------------------------------- math::interval_distance
+IntervalImpl(f1, s1, f2, s2) ==
+  IF IntervalTouchBug
+  THEN (* if (i1_second <= i2_second) swap; i2_first <= i1_first ? i1_first - i2_second : max(..) *)
+       LET sw == s1 <= s2
+           af == IF sw THEN f2 ELSE f1
+           as == IF sw THEN s2 ELSE s1
+           bf == IF sw THEN f1 ELSE f2
+           bs == IF sw THEN s1 ELSE s2
+       IN IF bf <= af THEN af - bs ELSE StdMax(bs - as, af - bf)
+  ELSE (* if (i1_second < i2_second || (i1_second <= i2_second && i2_first < i1_first)) swap;
+          i2_first < i1_first ? i1_first - i2_second : max(..) *)
+       LET sw == s1 < s2 \/ (s1 <= s2 /\ f2 < f1)
+           af == IF sw THEN f2 ELSE f1
+           as == IF sw THEN s2 ELSE s1
+           bf == IF sw THEN f1 ELSE f2
+           bs == IF sw THEN s1 ELSE s2
+       IN IF bf < af THEN af - bs ELSE StdMax(bs - as, af - bf)
+
 \* ----------------------------------------------------------------- the cases
 RankGEInt(T) == Bits(T) >= Bits("i32")
 MCU == MCTypes \cap UnsignedTypes
@@ -178,16 +213,20 @@ EnumSizes == {1, 3, 9}
 MaxE(T) == IF Bits(Promoted(T)) - 1 <= MaxExp THEN Bits(Promoted(T)) - 1 ELSE MaxExp
 
 Init ==
-  \/ /\ f = "truncation_check" /\ S \in MCTypes /\ D \in MCTypes /\ a \in Values(S) /\ b = 0 /\ c = 0
+  \/ /\ f = "truncation_check" /\ S \in MCTypes /\ D \in MCTypes /\ a \in Values(S) /\ b = 0 /\ c = 0 /\ d4 = 0
   \/ /\ f = "from_int" /\ S \in MCU /\ D \in MCTypes /\ b \in {n \in EnumSizes : n - 1 <= Max(D)}
-     /\ a \in Values(S) /\ c = 0
-  \/ /\ f \in {"log2", "is_power_of_2", "next_power_of_2"} /\ S \in MCU /\ D = S /\ a \in Values(S) /\ b = 0 /\ c = 0
-  \/ /\ f = "ceil_div" /\ S \in {t \in MCU : RankGEInt(t)} /\ D = S /\ a \in Left(S) /\ b \in Right(S) /\ c = 0
-  \/ /\ f = "ceil_div_signed" /\ S \in {t \in MCS : RankGEInt(t)} /\ D = S /\ a \in Left(S) /\ b \in Right(S) /\ c = 0
-  \/ /\ f \in {"div", "diff"} /\ S \in MCTypes /\ D = S /\ a \in Left(S) /\ b \in Right(S) /\ c = 0
-  \/ /\ f \in {"mod", "bit_test"} /\ S \in MCU /\ D = S /\ a \in Left(S) /\ b \in Right(S) /\ c = 0
-  \/ /\ f = "clamp" /\ S \in MCTypes /\ D = S /\ a \in ClampDom(S) /\ b \in ClampDom(S) /\ c \in ClampDom(S)
-  \/ /\ f \in {"power_of_2", "shifted_mask"} /\ S \in MCTypes /\ D = S /\ a \in 0..MaxE(S) /\ b = 0 /\ c = 0
+     /\ a \in Values(S) /\ c = 0 /\ d4 = 0
+  \/ /\ f \in {"log2", "is_power_of_2", "next_power_of_2"} /\ S \in MCU /\ D = S /\ a \in Values(S) /\ b = 0 /\ c = 0 /\ d4 = 0
+  \/ /\ f = "ceil_div" /\ S \in {t \in MCU : RankGEInt(t)} /\ D = S /\ a \in Left(S) /\ b \in Right(S) /\ c = 0 /\ d4 = 0
+  \/ /\ f = "ceil_div_signed" /\ S \in {t \in MCS : RankGEInt(t)} /\ D = S /\ a \in Left(S) /\ b \in Right(S) /\ c = 0 /\ d4 = 0
+  \/ /\ f \in {"div", "diff"} /\ S \in MCTypes /\ D = S /\ a \in Left(S) /\ b \in Right(S) /\ c = 0 /\ d4 = 0
+  \/ /\ f = "bit_test" /\ S \in MCS /\ D = S /\ a \in Left(S) /\ b \in Right(S) /\ c = 0 /\ d4 = 0
+  \/ /\ f = "convert" /\ S \in MCTypes /\ D \in MCTypes /\ a \in Values(S) /\ b = 0 /\ c = 0 /\ d4 = 0
+  \/ /\ f = "interval_distance" /\ S = "i32" /\ D = S /\ S \in MCTypes
+     /\ a \in -4..4 /\ b \in a..4 /\ c \in -4..4 /\ d4 \in c..4
+  \/ /\ f \in {"mod", "bit_test"} /\ S \in MCU /\ D = S /\ a \in Left(S) /\ b \in Right(S) /\ c = 0 /\ d4 = 0
+  \/ /\ f = "clamp" /\ S \in MCTypes /\ D = S /\ a \in ClampDom(S) /\ b \in ClampDom(S) /\ c \in ClampDom(S) /\ d4 = 0
+  \/ /\ f \in {"power_of_2", "shifted_mask"} /\ S \in MCTypes /\ D = S /\ a \in 0..MaxE(S) /\ b = 0 /\ c = 0 /\ d4 = 0
 Next == UNCHANGED vars
 Spec == Init /\ [][Next]_vars
 
@@ -201,6 +240,7 @@ Demanded ==
     [] f = "next_power_of_2" -> Representable(S, NextPow2(a))
     [] f = "log2" -> a # 0
     [] f \in {"power_of_2", "shifted_mask"} -> Representable(S, Pow2(a))
+    [] f = "convert" -> Representable(D, a)
     [] OTHER -> TRUE
 
 ImplResult ==
@@ -216,7 +256,9 @@ ImplResult ==
     [] f = "diff" -> DiffImpl(S, a, b)
     [] f = "clamp" -> Ok(ClampImpl(a, b, c))
     [] f \in {"power_of_2", "shifted_mask"} -> Pow2Impl(S, a)
-    [] f = "bit_test" -> Ok(BitTestImpl(S, a, b))
+    [] f = "bit_test" -> Ok(IF Signed(S) THEN BitTestSignedImpl(S, a, b) ELSE BitTestImpl(S, a, b))
+    [] f = "convert" -> Ok(ConvImpl(S, D, a))
+    [] f = "interval_distance" -> Ok(IntervalImpl(a, b, c, d4))
 
 Definition ==
   CASE f = "truncation_check" -> TruncationCheck(D, a)
@@ -231,7 +273,9 @@ Definition ==
     [] f = "clamp" -> Clamp(a, b, c)
     [] f = "power_of_2" -> Pow2(a)
     [] f = "shifted_mask" -> ShiftedMask(a)
-    [] f = "bit_test" -> BitTest(a, b)
+    [] f = "bit_test" -> IF Signed(S) THEN BitTestPattern(S, a, b) ELSE BitTest(a, b)
+    [] f = "convert" -> Convert(D, a)
+    [] f = "interval_distance" -> IntervalDistance(a, b, c, d4)
 
 (* the invariant: on every demanded input the transcription is free of undefined behaviour and
    returns the mathematical definition *)
